@@ -11,6 +11,8 @@ import (
 	"os/exec"
 	"path/filepath"
 	"regexp"
+	"runtime"
+	"runtime/debug"
 	"sort"
 	"strconv"
 	"strings"
@@ -92,13 +94,18 @@ func child(args []string) {
 		fmt.Fprintln(os.Stderr, "unknown property", *id)
 		os.Exit(2)
 	}
+	// fail fast on runaway recursion instead of growing the stack to the 1 GB default
+	debug.SetMaxStack(96 << 20)
 	f, err := os.OpenFile(*out, os.O_CREATE|os.O_WRONLY|os.O_TRUNC, 0o644)
 	if err != nil {
 		fmt.Fprintln(os.Stderr, err)
 		os.Exit(2)
 	}
 	w := bufio.NewWriter(f)
+	var emitMu sync.Mutex
 	emit := func(l childLine) {
+		emitMu.Lock()
+		defer emitMu.Unlock()
 		b, _ := json.Marshal(l)
 		w.Write(b)
 		w.WriteByte('\n')
@@ -113,6 +120,18 @@ func child(args []string) {
 	}
 	rp, isRace := p.(props.RaceProp)
 	rec := core.NewRecorder(*id, *seed, *tier)
+	// memory watchdog: the sandbox has no memory limit, so a runaway case must not take the machine down
+	go func() {
+		var ms runtime.MemStats
+		for {
+			time.Sleep(300 * time.Millisecond)
+			runtime.ReadMemStats(&ms)
+			if ms.HeapAlloc+ms.StackInuse > 3<<30 {
+				emit(childLine{T: "oom", I: rec.CurIdx})
+				os.Exit(4)
+			}
+		}
+	}()
 	total := p.NumCases(*tier)
 	runOne := func(idx int) {
 		rec.CurIdx = idx
@@ -178,8 +197,8 @@ type crashInfo struct {
 	exit   string
 }
 
-func readChildOut(path string) (summary *core.Recorder, lastBegin int, hang int) {
-	lastBegin, hang = -1, -1
+func readChildOut(path string) (summary *core.Recorder, lastBegin int, hang int, oom int) {
+	lastBegin, hang, oom = -1, -1, -1
 	f, err := os.Open(path)
 	if err != nil {
 		return
@@ -197,6 +216,8 @@ func readChildOut(path string) (summary *core.Recorder, lastBegin int, hang int)
 			lastBegin = l.I
 		case "hang":
 			hang = l.I
+		case "oom":
+			oom = l.I
 		case "summary":
 			summary = l.Rec
 		}
@@ -230,7 +251,7 @@ func runShard(bin, id, tier string, seed uint64, shard, n int, mode, tmpdir stri
 	res := &shardResult{}
 	var skips []string
 	deadline := time.Now().Add(wall)
-	for attempt := 0; attempt < 12; attempt++ {
+	for attempt := 0; attempt < 5; attempt++ {
 		tag := fmt.Sprintf("%s-%s-%d", mode, tier, shard)
 		out := filepath.Join(tmpdir, tag+".jsonl")
 		errf := filepath.Join(tmpdir, tag+".err")
@@ -279,7 +300,7 @@ func runShard(bin, id, tier string, seed uint64, shard, n int, mode, tmpdir stri
 				res.raceLogs = append(res.raceLogs, string(b))
 			}
 		}
-		summary, lastBegin, hang := readChildOut(out)
+		summary, lastBegin, hang, oom := readChildOut(out)
 		if summary != nil && werr == nil {
 			res.rec = summary
 			return res
@@ -291,6 +312,11 @@ func runShard(bin, id, tier string, seed uint64, shard, n int, mode, tmpdir stri
 		if hang >= 0 {
 			res.hangs = append(res.hangs, hang)
 			skips = append(skips, fmt.Sprint(hang))
+			continue
+		}
+		if oom >= 0 {
+			res.crashes = append(res.crashes, crashInfo{idx: oom, stderr: "memory watchdog: heap grew beyond 3 GiB while running this case", exit: "killed by the harness memory watchdog"})
+			skips = append(skips, fmt.Sprint(oom))
 			continue
 		}
 		if lastBegin >= 0 {
@@ -440,7 +466,7 @@ func parent(args []string) int {
 				cmd := exec.Command(j.bin, "child", "-prop", id, "-tier", tier, "-seed", fmt.Sprint(seed), "-only", fmt.Sprint(h),
 					"-out", out, "-timeout", fmt.Sprint(caseTimeout*3))
 				cmd.Run()
-				_, _, hang2 := readChildOut(out)
+				_, _, hang2, _ := readChildOut(out)
 				if hang2 >= 0 {
 					viols = append(viols, core.Violation{Prop: id, Monitor: "hang", Sig: fmt.Sprintf("hang:%d", h),
 						What: fmt.Sprintf("case did not terminate within %d s (confirmed alone with %d s)", caseTimeout, caseTimeout*3),
